@@ -296,6 +296,16 @@ pub fn judge(sc: &S1Scenario, obs: &Obs) -> Judged {
                 }
             }
         }
+        // (c') the simulation strategy only stops on its finish condition, its target or a timeout
+        if sc.strategy == Strategy::Simulation && g.panic.is_none() {
+            if let Some(t) = sc.target_states {
+                let finish_matched_sim = sc.finish.reference_matches(&dn, g);
+                if obs.state_count < t && !finish_matched_sim && !timeout_expired && !g.props.is_empty() {
+                    v.push(Violation::new("C12", "below-target:Simulation", format!("the simulation returned with state_count {} < target {} and no other stop reason (discoveries {:?}, finish {:?})", obs.state_count, t, dn, sc.finish)));
+                }
+                c.inc("simulation_target_checked");
+            }
+        }
         // (d) depth limit
         if let Some(limit) = sc.target_depth {
             for vis in &obs.visits {
